@@ -59,7 +59,7 @@ S_TALES = [K("k3::S-Pipe3"), K("k3::S-Not"), K("k3::S-Exists"), K("k3::S-LambdaS
 S_INTERP = [K("k3::S-Interp-text"), K("k3::S-Interp-off"), K("k3::S-Interp-lines"),
             K("k3::S-Interp-percent")]
 S_I18N = [K("k3::S-Translate-name"), K("k3::S-Translate-name-condition"), K("k3::S-Translate-id"), K("k3::S-Translate-empty"),
-          K("k3::S-I18nDomain"), K("k3::S-I18nContext"), K("k3::S-I18nTarget"), K("k3::S-I18nAttributes"),
+          K("k3::S-I18nDomain"), K("k3::S-I18nContext"), K("k3::S-I18nTarget"), K("k3::S-I18nAttributes"), K("k3::S-I18nAttributes-two"),
           K("k3::S-Content-translate")]
 S_METAL = [K("k3::S-UseExternal"), K("k3::S-MacroUseInternal"), K("k3::S-MacroBody"), K("k3::S-TwoMacros"),
            K("k3::S-MacroBody-slot-define"),
